@@ -33,7 +33,7 @@ ASSUMPTIONS = ['os.rename / shutil.move within one directory are atomic; a kille
 TRUSTED = ['modelled, not verified: sys.addaudithook reports every file-system call of CPython, numpy, pandas and orjson before it happens']
 
 FAULTS = {
-    'json': ['run', 'typeCheck', 'serialise'],
+    'json': ['run', 'typeCheck', 'serialise', 'serialisePy'],      # serialisePy: a value with a set and a path inside (no JSON form)
     'numpy': ['run', 'typeCheck', 'serialise'],
     'pandas': ['run', 'typeCheck', 'serialise'],
     'generated': ['run', 'genBody', 'typeCheck', 'serialise'],
@@ -43,7 +43,7 @@ FAULTS = {
     'continues': ['run', 'runMid', 'typeCheck'],
 }
 # the model's name of a serializer failure: orjson raises before anything is written, the others in the middle of the file
-MODEL_FAULT = {('json', 'serialise'): 'serialise', ('numpy', 'serialise'): 'serialiseWrote', ('pandas', 'serialise'): 'serialiseWrote',
+MODEL_FAULT = {('json', 'serialise'): 'serialise', ('json', 'serialisePy'): 'serialise', ('numpy', 'serialise'): 'serialiseWrote', ('pandas', 'serialise'): 'serialiseWrote',
                ('generated', 'serialise'): 'serialiseWrote', ('generatedLazy', 'serialise'): 'serialiseWrote',
                ('listNumpy', 'serialise'): 'serialiseWrote'}
 DIRK = ('listNumpy', 'dirData', 'continues')
@@ -542,7 +542,11 @@ def _run(ctx, pool, root0, dtasks):
         ctx.case(case, nontrivial=True)
         ctx.count(f'crash:{kind}'); ctx.count('crash:torn' if torn else 'crash:kill')
         if not res[len(setup_steps(kind, '', mode, size))].get('crashed'):
-            raise BrokenCheck(f'crash injection did not fire: {case}')
+            # the run did not repeat the file operations of the observed run (an implementation that works partly outside the data
+            # directory, or whose operations depend on the process): no crash point to compare — the oracle still judges what is left
+            ctx.diverge('crash-injection:run-does-not-repeat-the-observed-operations', case, 'no crash at the chosen operation', 'crash')
+            oracle(ctx, case, obs, mode in ('forced', 'reuse', 'delete'), kind)
+            return
         if vis is None:          # protocol differs from the model's: no model state to compare with; the oracle decides
             oracle(ctx, case, obs, mode in ('forced', 'reuse', 'delete'), kind)
             return
@@ -657,7 +661,11 @@ def _run(ctx, pool, root0, dtasks):
         a, b = resB[bi], res
         strip = lambda r: {k: v for k, v in r.items() if k not in ('size',)} if isinstance(r, dict) else r
         if [strip(x) for x in a[-2:]] != [strip(x) for x in b[-2:]]:
-            raise BrokenCheck(f'forked child and fresh interpreter disagree on {metaB[bi]}: {a[-2:]} vs {b[-2:]}')
+            # (with recorded disagreements already in hand this is one more symptom of an implementation whose file operations depend on
+            #  the process; on an implementation that agreed with the model so far it means the harness itself is not deterministic)
+            if not (ctx.failures or ctx.divergences):
+                raise BrokenCheck(f'forked child and fresh interpreter disagree on {metaB[bi]}: {a[-2:]} vs {b[-2:]}')
+            ctx.diverge('crash-replay:forked-child-vs-fresh-interpreter', {'job': list(metaB[bi])}, str(a[-2:])[:300], str(b[-2:])[:300])
     ctx.notes['scenarios'] = len(scen)
     ctx.notes['crash_jobs'] = len(jobsB)
 
